@@ -56,6 +56,12 @@ def orthoTable (N : Nat) : Bool :=
   (List.range N).all fun m => (List.range N).all fun n =>
     expect (pmul (hePoly m) (hePoly n)) == (if m = n then fact n else 0)
 
+/-- linear extension of a continuous anamorphosis between its practical bound `p` and its absolute
+bound `a` (`AnamHermite::transformToRawValue` / `rawToTransformValue`, branches "outside the
+practical interval"): the point `(a0, a1)` is joined to `(p0, p1)`:
+`x ↦ a1 + (p1 − a1) (x − a0) / (p0 − a0)` -/
+def extend (a0 p0 a1 p1 x : Q) : Q := a1 + (p1 - a1) * (x - a0) / (p0 - a0)
+
 /-- number of elements of `l` strictly below `x` (rank used by the normal score transform) -/
 def countBelow (l : List Q) (x : Q) : Nat := (l.filter (· < x)).length
 
